@@ -4,7 +4,7 @@
 (* and the run of its output (machine B) from the same run-time inputs.    *)
 (* Each contract returns "ok" or the name of the first clause that fails.  *)
 (***************************************************************************)
-EXTENDS Integers, Sequences, Accfg, Csr, Bitwise
+EXTENDS Integers, Sequences, Accfg, Csr, Bitwise, CsrLayout
 
 IsPrefixLen(a, b) == Len(a) <= Len(b)
 
@@ -59,11 +59,34 @@ PackBits(c, a, b) ==
   ELSE LET ev == b.log[1]  ins == SubSeq(ev.vals, 2, Len(ev.vals)) IN
        IF ev.vals[1] = ToSigned(OrAll(ins, c.offs, c.w, 1), c.w) THEN "ok" ELSE "PackedWord"
 
+(* ---- C08: generated configuration values line up with field names ---- *)
+(* the observed event carries (pointer args ..., then one value per setup operand) *)
+RegFile(c, a, b) ==
+  IF b.fault # "none" THEN "B.fault:" \o b.fault
+  ELSE IF Len(b.log) < 1 \/ b.log[1].k # "op" THEN "NoSetupObserved"
+  ELSE LET np == Len(c.cfg)
+           ev == b.log[1]
+           ptr == [i \in 1..np |-> ev.vals[i]]
+           got == SubSeq(ev.vals, np + 1, Len(ev.vals))
+           exp == RegularRegs(c.cfg, c.pats, ptr, c.zeros)
+           ns == Len(exp)
+           tail == c.tail     \* sequence of [name, mode ("eq" | "any" | "ge"), v]
+           allnames == Names(exp) \o [k \in DOMAIN tail |-> tail[k].name] IN
+       IF c.declared # allnames THEN "DeclaredFieldNames"
+       ELSE IF Len(got) # Len(c.declared) THEN "OneValuePerField"
+       ELSE IF c.setupnames # c.declared THEN "SetupFieldOrder"
+       ELSE IF \E k \in 1..ns : got[k] # exp[k][2] THEN "StreamerFieldValues"
+       ELSE IF \E k \in DOMAIN tail : \/ (tail[k].mode = "eq" /\ got[ns + k] # tail[k].v)
+                                      \/ (tail[k].mode = "ge" /\ got[ns + k] < tail[k].v) THEN "KernelFieldValues"
+       ELSE IF c.knm > 0 /\ got[ns + 1] * got[ns + 2] * got[ns + 3] # c.knm THEN "LoopCountsVsStreamSteps"
+       ELSE "ok"
+
 Judge(contract, c, a, b) ==
   IF a.fault # "none" THEN "skipA:" \o a.fault
   ELSE CASE contract \in {"dedup", "overlap", "trace"} -> AccfgObs(a, b)
          [] contract = "csr" -> CsrLowering(c, a, b)
          [] contract = "effects" -> SameEffects(a, b)
          [] contract = "packbits" -> PackBits(c, a, b)
+         [] contract = "regfile" -> RegFile(c, a, b)
          [] OTHER -> "machinery:unknown-contract"
 =============================================================================
